@@ -429,15 +429,7 @@ theorem loop_post (env : Env) (world : Nat → Dial) (o : Opts) :
     by_cases hred : statusIn (some r.status) Gen.redirectStatuses = true
     · rw [if_pos hred]
       simp only
-      -- location lookup
-      generalize hloc : (if Gen.h2LocationGuard = true then
-          match dictGetTruthy r.headers "location".toList with
-          | some l => (Except.ok l : Except HExn Str)
-          | none => Except.error HExn.wsgeneric
-        else match dictGet r.headers "location".toList with
-          | some l => Except.ok l
-          | none => Except.error (HExn.internal "KeyError")) = loc
-      cases loc with
+      cases hloc : redirectTarget env r with
       | error e =>
         simp only
         exact cleanup_loopPost env world o i (n + 1) e obj tr i hconn (by rw [hsock]; exact hacb) (by omega) (by omega)
